@@ -19,15 +19,16 @@ const pkgPath = "github.com/influxdata/influxql"
 
 // Program is the resolved view of /repo's current working tree.
 type Program struct {
-	Dir   string
-	Tags  string
-	Fset  *token.FileSet
-	Pkg   *packages.Package // the influxql package
-	All   []*packages.Package
-	SSA   *ssa.Program
-	SPkg  *ssa.Package
-	Info  *types.Info
-	Types *types.Package
+	initOnlyMemo map[*ssa.Function]bool
+	Dir          string
+	Tags         string
+	Fset         *token.FileSet
+	Pkg          *packages.Package // the influxql package
+	All          []*packages.Package
+	SSA          *ssa.Program
+	SPkg         *ssa.Package
+	Info         *types.Info
+	Types        *types.Package
 
 	// FuncDecls maps a function/method object to its declaration.
 	FuncDecls map[*types.Func]*ast.FuncDecl
